@@ -70,7 +70,7 @@ Proof.
     split; [exact Hxz|]. split; [exact Hyz|]. apply (msep_rmap f finj g [x] [y] Z). exact Hs.
 Qed.
 
-Theorem is_admg_rmap g : is_admg (rmap f g) <-> is_admg g.
+Theorem c07_is_admg_rmap g : is_admg (rmap f g) <-> is_admg g.
 Proof.
   unfold is_admg. rewrite (wf_rmap f finj), acyclic_p_rmap. simpl. rewrite (NoDup_map_inj f finj), !pmap_nil. tauto.
 Qed.
@@ -161,10 +161,10 @@ Proof.
 Qed.
 
 (* NoDup (V g) is the one clause of is_admg that is NOT a property of the node SET: it must be assumed to transfer *)
-Theorem is_admg_order_free g g' : gequiv g g' -> (NoDup (V g) <-> NoDup (V g')) -> (is_admg g <-> is_admg g').
+Theorem c07_is_admg_order_free g g' : gequiv g g' -> (NoDup (V g) <-> NoDup (V g')) -> (is_admg g <-> is_admg g').
 Proof.
   intros He Hn. unfold is_admg.
-  rewrite (wf_gequiv g g' He), Hn, (U_nil_gequiv_iff g g' He), (C_nil_gequiv_iff g g' He), (acyclic_p_order_free g g' He). tauto.
+  rewrite (wf_gequiv g g' He), Hn, (U_nil_gequiv06 g g' He), (C_nil_gequiv06 g g' He), (acyclic_p_order_free g g' He). tauto.
 Qed.
 
 (* ---- the executable model ---- *)
@@ -203,12 +203,12 @@ Theorem valid_mag_model_order_free g g' : gequiv g g' -> wf g -> valid_mag_model
 Proof.
   intros He Hw. apply bool_eq_iff.
   rewrite (valid_mag_local g Hw), (valid_mag_local g' (proj1 (wf_gequiv g g' He) Hw)).
-  rewrite (U_nil_gequiv_iff g g' He), (no_bow_p_order_free g g' He), (acyclic_p_order_free g g' He),
+  rewrite (U_nil_gequiv06 g g' He), (no_bow_p_order_free g g' He), (acyclic_p_order_free g g' He),
     (ancestral_bi_p_order_free g g' He), (is_maximal_model_order_free g g' He). tauto.
 Qed.
 
-(* non-vacuity: a valid MAG 0 <-> 1 -> 2 and the non-maximal 0 <-> 1 <-> 2 <-> 3 with 0 -> 3 ... renamed by v |-> 7v + 100,
-   and listed in another order with a duplicate edge *)
+(* non-vacuity: the valid MAG 0 <-> 1 -> 2, renamed by v |-> 7v + 100 and listed in another order with a duplicate edge;
+   adding 2 -> 0 (0 <-> 1 with 1 an ancestor of 0) makes it invalid, renamed or not *)
 Example equiv_C07_example :
   let g := MkG [0; 1; 2] [(1, 2)] [(0, 1)] [] [] in
   let g' := MkG [2; 0; 1] [(1, 2); (1, 2)] [(1, 0)] [] [] in
@@ -221,6 +221,7 @@ Proof.
   simpl. split; [intros a b H; lia|]. split.
   - repeat split; try tauto; simpl; intros; try tauto.
     + unfold has_d. simpl. destruct (pair_eqb (a, b) (1, 2)); reflexivity.
-    + unfold has_b, smemb. simpl. rewrite !orb_false_r. apply orb_comm.
+    + unfold has_b. apply bool_eq_iff. rewrite !smemb_In. simpl.
+      split; intros [[E|[]]|[E|[]]]; inversion E; auto.
   - unfold wf. vm_compute. repeat split; reflexivity.
 Qed.
